@@ -33,10 +33,10 @@ TOLERANCES = {"law_rel": 1e-10, "path_rel": 1e-10, "readback_rel": 1e-12}
 EXHAUSTIVE = {"quick": False, "thorough": True}
 EXHAUSTIVE_PART = "thorough: every (2-D shape class x material class) pair at least 3 paths; quick: every pair once"
 FLOORS = {"quick": {"law.area": 400, "law.ndens": 400, "law.dims": 400, "law.path": 400, "law.link": 100, "law.hotset": 200, "law.fluid": 20, "law.path-through-zero-celsius": 100, "hook:Component.setTemperature": 1000,
-                    "law.area/unshapedcomponent": 20, "law.expanding-set": 400, "law.hotset-count": 200, "law.link/circle": 100, "law.link/hexagon": 100,
+                    "law.area/unshapedcomponent": 20, "law.asked-at-another-temperature": 1000, "law.asked-at-another-temperature/helix": 60, "law.expanding-set": 400, "law.hotset-count": 200, "law.link/circle": 100, "law.link/hexagon": 100,
                     "law.link/rectangle": 100, "law.link-write": 60, "law.link-replace": 60, "law.link-unlinked-follow": 60},
           "thorough": {"law.area": 4000, "law.ndens": 4000, "law.dims": 4000, "law.path": 4000, "law.link": 1000, "law.hotset": 2000, "law.fluid": 200, "law.path-through-zero-celsius": 1000, "hook:Component.setTemperature": 10000,
-                       "law.area/unshapedcomponent": 200, "law.expanding-set": 4000, "law.hotset-count": 2000, "law.link/circle": 1000, "law.link/hexagon": 1000,
+                       "law.area/unshapedcomponent": 200, "law.asked-at-another-temperature": 10000, "law.asked-at-another-temperature/helix": 600, "law.expanding-set": 4000, "law.hotset-count": 2000, "law.link/circle": 1000, "law.link/hexagon": 1000,
                        "law.link/rectangle": 1000, "law.link-write": 600, "law.link-replace": 600, "law.link-unlinked-follow": 600}}
 ASSUMPTIONS = [
     "the linear expansion factor between two temperatures is (100+p(T1))/(100+p(T0)) with p the material's own linearExpansionPercent, evaluated by the harness "
@@ -312,6 +312,26 @@ def one_component(rec, rng, sname, scls, mcls, matmod, custom):
                     break
                 if c.getDimension(k, cold=True) != cold[k]:
                     rec.violation("dimension/cold-value-changed", "cold %s changed %r -> %r" % (k, cold[k], c.getDimension(k, cold=True)), w)
+            # the same questions asked for another temperature than the current one (Tc=...): every dimension and the area answer for
+            # the temperature that was asked, not for a mixture of that and the component's own
+            Tq = rng.choice(list(path) + [Tin, Thot])
+            if Tq != T:
+                fq = (100.0 + pct(mat, Tq)) / (100.0 + p_in)
+                rec.hit("law.asked-at-another-temperature")
+                rec.hit("law.asked-at-another-temperature/" + sname)
+                try:
+                    Aq = c.getArea(Tc=Tq)
+                    if not relclose(Aq, Acold0 * fq ** 2, TOLERANCES["law_rel"]):
+                        rec.violation("area/asked-at-another-temperature/%s" % sname, "%s/%s at %g C: getArea(Tc=%g) = %r, cold area %r x f(%g)^2 = %r" % (
+                            sname, mname, T, Tq, Aq, Acold0, Tq, Acold0 * fq ** 2), dict(w, T=T, Tq=Tq))
+                    for k in tedims:
+                        gq = c.getDimension(k, Tc=Tq)
+                        if cold[k] and not relclose(gq, cold[k] * fq, TOLERANCES["law_rel"]):
+                            rec.violation("dimension/asked-at-another-temperature/%s" % sname, "%s.%s at %g C: getDimension(Tc=%g) = %r, cold %r x f = %r" % (
+                                sname, k, T, Tq, gq, cold[k], cold[k] * fq), dict(w, dim=k, T=T, Tq=Tq))
+                            break
+                except TypeError:
+                    rec.skip("shape does not take a temperature argument for its area")
             # non-expanding dims (mult, nHoles) never move
             for k in COUNT_KEYS:
                 if k in dims and (c.getDimension(k) != dims[k] or c.getDimension(k, cold=True) != dims[k]):
